@@ -9,12 +9,27 @@ CACHE = os.path.join(VERIF, ".cache")
 COQ = os.path.join(VERIF, "coq")
 OCAML = os.path.join(VERIF, "ocaml")
 HARNESS = os.path.join(VERIF, "harness")
-EVID = os.path.join(VERIF, "evidence")
+# evidence of runs against anything but /repo itself (seeded changes on a repository copy) never lands in evidence/
+EVID = os.path.join(VERIF, "evidence") if os.path.realpath(REPO) == "/repo" else os.path.join(CACHE, "evidence-other-repo")
 NCPU = os.cpu_count() or 4
 
 FORBIDDEN = re.compile(r"\b(Admitted|admit|Axiom|Parameter|Parameters|Conjecture|Admit Obligations|bypass_check|Unset Guard Checking|Unset Positivity Checking|Unset Universe Checking|type-in-type|impredicative-set)\b")
 
 BASE_FLAGS = ["-std=c++11", "-DHMAC_CPP_VERIF", "-DHMAC_CPP_ENABLE_MLOCK", "-DHAVE_EXPLICIT_BZERO"]
+
+# build configurations: the primary one (every tier) and the matrix the thorough tier adds.
+# defs = None means BASE_FLAGS; otherwise the complete list of -std/-D flags.
+PRIMARY = dict(label="g++ -O2 +explicit_bzero +mlock", compiler="g++", opt="-O2", defs=None)
+def _defs(bzero, mlock):
+    return ["-std=c++11", "-DHMAC_CPP_VERIF"] + (["-DHMAC_CPP_ENABLE_MLOCK"] if mlock else []) + (["-DHAVE_EXPLICIT_BZERO"] if bzero else [])
+MATRIX_PURE = [
+    dict(label="g++ -O0", compiler="g++", opt="-O0", defs=None),
+    dict(label="g++ -O3", compiler="g++", opt="-O3", defs=None),
+    dict(label="clang++ -O2", compiler="clang++", opt="-O2", defs=None),
+]
+MATRIX_ZEROING = [dict(label="%s %s %sexplicit_bzero %smlock" % (cc, o, "+" if bz else "-", "+" if ml else "-"), compiler=cc, opt=o, defs=_defs(bz, ml))
+                  for cc, o in (("g++", "-O0"), ("g++", "-O2"), ("g++", "-O3"), ("clang++", "-O2"))
+                  for bz in (True, False) for ml in (True, False) if not (cc == "g++" and o == "-O2" and bz and ml)]
 
 TRUSTED_BASE = [
     "Coq 8.16.1 kernel incl. the vm_compute evaluator (finite sweeps); no native_compute",
@@ -153,7 +168,7 @@ def repo_hash():
     return h.hexdigest()[:16]
 
 
-def ensure_driver(name, extra_flags=(), compiler="g++", opt="-O2", libs=()):
+def ensure_driver(name, extra_flags=(), compiler="g++", opt="-O2", libs=(), defs=None):
     """Build harness/<name>.cpp together with /repo/src/*.cpp (current working tree). Cached by content hash."""
     srcs = [os.path.join(HARNESS, name + ".cpp")]
     h = hashlib.sha256()
@@ -161,7 +176,8 @@ def ensure_driver(name, extra_flags=(), compiler="g++", opt="-O2", libs=()):
     for f in sorted(glob.glob(os.path.join(HARNESS, "*"))):
         if os.path.isfile(f):
             h.update(open(f, "rb").read())
-    h.update(" ".join([compiler, opt] + list(extra_flags) + list(libs)).encode())
+    defs = list(defs) if defs is not None else BASE_FLAGS
+    h.update(" ".join([compiler, opt] + list(extra_flags) + list(libs) + (defs if defs != BASE_FLAGS else [])).encode())
     key = h.hexdigest()[:16]
     d = os.path.join(CACHE, "drv", key)
     exe = os.path.join(d, name)
@@ -170,7 +186,7 @@ def ensure_driver(name, extra_flags=(), compiler="g++", opt="-O2", libs=()):
             os.utime(d)
             return exe, ""
         os.makedirs(d, exist_ok=True)
-        cmd = [compiler] + BASE_FLAGS + [opt] + list(extra_flags) + ["-I" + os.path.join(REPO, "include"), "-I" + HARNESS] + srcs + \
+        cmd = [compiler] + defs + [opt] + list(extra_flags) + ["-I" + os.path.join(REPO, "include"), "-I" + HARNESS] + srcs + \
               sorted(glob.glob(os.path.join(REPO, "src", "*.cpp"))) + ["-o", exe + ".tmp"] + list(libs)
         rc, out = sh(cmd, timeout=900)
         if rc != 0:
@@ -180,7 +196,7 @@ def ensure_driver(name, extra_flags=(), compiler="g++", opt="-O2", libs=()):
         return exe, out
 
 
-def prune_cache(keep=24):
+def prune_cache(keep=80):
     base = os.path.join(CACHE, "drv")
     ds = sorted(glob.glob(os.path.join(base, "*")), key=os.path.getmtime)
     for d in ds[:-keep]:
